@@ -312,7 +312,7 @@ func (g *schemaGen) union(depth int) (tyJ, int) {
 	}
 	rj := tyJ{"r": kind, "disc": []interface{}{}, "d": []int{}}
 	if kind != "kinded" {
-		pool := []string{"i", "s", "two", "k", "e", "l", "j"}
+		pool := []string{"i", "s", "two", "k", "e", "l", "j", "String", "Int", "Bool"} // (also: type names of other members)
 		perm := r.Perm(len(pool))
 		disc := []interface{}{}
 		for i := range ms {
